@@ -98,6 +98,31 @@ func GenConcurrent(t *testing.T, r *rand.Rand, prop, tier string, _ *atomic.Int6
 	return c
 }
 
+// ToRace turns a case of any scenario into the free-running workload of the race half: its query
+// operations (with their storage faults and client cancellations) run concurrently on one engine
+// over the case's data, on real goroutines, under the race detector.
+func ToRace(c *Case) *Case {
+	c2 := c.Clone()
+	c2.Scen = "race"
+	c2.Ops = nil
+	for _, op := range c.Ops {
+		if op.Kind == "" && op.Q != "" {
+			op.Store = nil
+			c2.Ops = append(c2.Ops, op)
+		}
+	}
+	if len(c2.Ops) == 0 {
+		return nil
+	}
+	if len(c2.Ops) == 1 {
+		// a second client of the same query: two queries on one engine, two sets of shards
+		c2.Ops = append(c2.Ops, c2.Ops[0])
+		c2.Ops[1].Faults, c2.Ops[1].ClientCancelStep = nil, 0
+	}
+	c2.Var = map[string]any{"repeat": 2}
+	return c2
+}
+
 func soloKey(op Op) string { return fmt.Sprintf("%s|%d|%d|%d", op.Q, op.Start, op.End, op.Step) }
 
 func concPre(x *X) {
@@ -270,7 +295,10 @@ func raceMain(x *X) {
 	}
 	// data races reported by the detector while this case ran
 	if rep := newRaceReports(); rep != "" {
-		fr, harness := raceFrame(rep)
+		fr, harness, sites := raceFrameSites(rep)
+		if !harness {
+			x.R.RaceSites = sites
+		}
 		switch {
 		case harness:
 			// one of the two accesses is the harness's own code: not the engine's race
@@ -308,6 +336,14 @@ func newRaceReports() string {
 // this harness means the race is the harness's own. Returns the engine function ("" if none) and
 // whether the harness is to blame.
 func raceFrame(rep string) (string, bool) {
+	fn, harness, _ := raceFrameSites(rep)
+	return fn, harness
+}
+
+// raceFrameSites also returns, for every access stack, the engine statement it ran through
+// ("execution/exchange/coalesce.go:120"): the places where the two goroutines must be interleaved.
+func raceFrameSites(rep string) (string, bool, []string) {
+	var sites []string
 	// only the two access stacks count, not the "Goroutine N created at" sections
 	var acc []string
 	for _, sec := range strings.Split(rep, "\n\n") {
@@ -330,6 +366,11 @@ func raceFrame(rep string) (string, bool) {
 			case strings.Contains(file, "/verifhook/"):
 				continue
 			case strings.Contains(file, "/repo/"):
+				site := file[strings.LastIndex(file, "/repo/")+len("/repo/"):]
+				if j := strings.Index(site, " "); j > 0 {
+					site = site[:j]
+				}
+				sites = append(sites, site)
 				if engine == "" {
 					if j := strings.LastIndex(fn, "/"); j >= 0 {
 						fn = fn[j+1:]
@@ -345,7 +386,7 @@ func raceFrame(rep string) (string, bool) {
 			break
 		}
 	}
-	return engine, harness
+	return engine, harness, sites
 }
 
 func compactRace(rep string) string {
